@@ -251,11 +251,13 @@ def run(prog, rep):
     guarded(rep, "C01.R4", "crate::wrap::wrap_single_line", lambda: _r4(prog, rep))
     guarded(rep, "C01.R5", "crate::wrap::wrap", lambda: _r5(prog, rep))
     # R7: imported lemmas
-    need = ["C06.R2", "C11.R1", "C11.R3", "C12.R1", "C12.R2", "C12.R5", "C12.R9"]
+    # the word list is a contiguous, lossless cover of the line (C11, C12) and the arrangement a partition of it (C06)
+    need = ["C06.R2", "C11.R1", "C11.R3", "C11.R9", "C12.R1", "C12.R2", "C12.R3", "C12.R4", "C12.R5", "C12.R6", "C12.R7",
+            "C12.R8", "C12.R9"]
     if has_feature(prog, "smawk"):
         need.append("C06.R3")
     if has_feature(prog, "unicode-linebreak"):
-        need.append("C11.R2")
+        need += ["C11.R2", "C11.R5", "C11.R6", "C11.R7"]
     for l in need:
         st = lemmas.status(prog, l)
         if st == "ok":
